@@ -155,10 +155,34 @@ func ParSignedDataFromProto(typ DutyType, data *pbv1.ParSignedData) (_ ParSigned
 		return ParSignedData{}, errors.New("unsupported duty type")
 	}
 
+	if err := verifyDecodedSignedData(signedData); err != nil {
+		return ParSignedData{}, err
+	}
+
 	return ParSignedData{
 		SignedData: signedData,
 		ShareIdx:   int(data.GetShareIdx()),
 	}, nil
+}
+
+// verifyDecodedSignedData returns an error if the decoded peer data cannot be hashed, re-encoded or cloned.
+// Structurally incomplete encodings (null or missing inner objects, null list elements, unknown versions)
+// decode into values with nil inner pointers that panic on first use, this must happen here where
+// panics are recovered, not later in the stream handlers that run without recovery.
+func verifyDecodedSignedData(data SignedData) error {
+	if eth2Data, ok := data.(Eth2SignedData); ok {
+		if _, err := eth2Data.MessageRoot(); err != nil {
+			return errors.Wrap(err, "invalid signed data message root")
+		}
+	}
+
+	_ = data.Signature()
+
+	if _, err := data.Clone(); err != nil {
+		return errors.Wrap(err, "invalid signed data")
+	}
+
+	return nil
 }
 
 // ParSignedDataToProto returns the data as a protobuf.
@@ -251,6 +275,12 @@ func UnsignedDataSetFromProto(typ DutyType, set *pbv1.UnsignedDataSet) (_ Unsign
 		resp[PubKey(pubkey)], err = unmarshalUnsignedData(typ, data)
 		if err != nil {
 			return nil, err
+		}
+
+		// Structurally incomplete encodings decode into values with nil inner pointers that panic
+		// when re-encoded, ensure that happens here where panics are recovered.
+		if _, err = resp[PubKey(pubkey)].Clone(); err != nil {
+			return nil, errors.Wrap(err, "invalid unsigned data")
 		}
 	}
 
